@@ -34,7 +34,8 @@ Alphabet == <<
   [type |-> 36,    vlen |-> 4,  var |-> "ord"],      \* 16 PRIORITY
   [type |-> 32802, vlen |-> 8,  var |-> "fplike"],   \* 17 SOFTWARE whose value reads like a FINGERPRINT attribute
   [type |-> 65280, vlen |-> 24, var |-> "milike"],   \* 18 unknown attribute whose value reads like a MESSAGE-INTEGRITY attribute
-  [type |-> 6,     vlen |-> 12, var |-> "hdrlike"]   \* 19 USERNAME whose value reads like attribute headers (type 0x0008 len 0 ...)
+  [type |-> 6,     vlen |-> 12, var |-> "hdrlike"],  \* 19 USERNAME whose value reads like attribute headers (type 0x0008 len 0 ...)
+  [type |-> 0,     vlen |-> 1,  var |-> "ord"]       \* 20 reserved type 0x0000
 >>
 
 \* header variants: top two bits, cookie, class, method, declared length relative to the real body length
@@ -79,7 +80,9 @@ Build(pre, s, k) == IF s = <<>> THEN pre ELSE Build(pre \o AttrBytes(Alphabet[He
 
 Damage(b, a, d) ==      \* b ends with attribute a (4 + padded bytes); apply the defect to that last attribute
   LET n == Len(b)  p == Pad4(a.vlen) - a.vlen IN
-  IF d = "hdrcut" THEN SubSeq(b, 1, n - (4 + Pad4(a.vlen)) + 2)
+  IF d = "hdrcut" THEN SubSeq(b, 1, n - (4 + Pad4(a.vlen)) + 2)          \* 2 of the 4 header bytes
+  ELSE IF d = "hdrcut1" THEN SubSeq(b, 1, n - (4 + Pad4(a.vlen)) + 1)    \* a single stray byte
+  ELSE IF d = "hdrcut3" THEN SubSeq(b, 1, n - (4 + Pad4(a.vlen)) + 3)
   ELSE IF d = "valcut" THEN SubSeq(b, 1, n - p - 1)          \* one byte of the value missing (needs vlen >= 1)
   ELSE IF d = "padcut" THEN SubSeq(b, 1, n - 1)              \* one padding byte missing (needs p >= 1)
   ELSE b
